@@ -25,14 +25,15 @@ def normalise_bool(e, positive=True):
         pass
     if e[0] == "call" and e[1].endswith("::is_empty") and len(e[2]) == 1:
         return ("rel", "Eq" if positive else "Ne", ("len", e[2][0]), ("lit", 0, "usize"))
+    # two-variant enums: "is not Some" is "is None" - always stated positively, like the arms of a `match`
     if e[0] == "call" and e[1].endswith("Option::<T>::is_some") and len(e[2]) == 1:
-        return ("variant", e[2][0], "Some", positive)
+        return ("variant", e[2][0], "Some" if positive else "None", True)
     if e[0] == "call" and e[1].endswith("Option::<T>::is_none") and len(e[2]) == 1:
-        return ("variant", e[2][0], "None", positive)
+        return ("variant", e[2][0], "None" if positive else "Some", True)
     if e[0] == "call" and e[1].endswith("Result::<T, E>::is_ok") and len(e[2]) == 1:
-        return ("variant", e[2][0], "Ok", positive)
+        return ("variant", e[2][0], "Ok" if positive else "Err", True)
     if e[0] == "call" and e[1].endswith("Result::<T, E>::is_err") and len(e[2]) == 1:
-        return ("variant", e[2][0], "Err", positive)
+        return ("variant", e[2][0], "Err" if positive else "Ok", True)
     return ("truth", e, positive)
 
 
